@@ -86,6 +86,15 @@ def run(ctx):
                 ctx.soft('correspondence:karatsuba-workspace', 'Karatsuba_aux size %d: highest written workspace byte is %d, the model says %d (of %d)' % (z, hw, w, u), {'tool': 'asan', 'lines': klines, 'size': z, 'impl': hw, 'model': w})
             if not right and ok: ctx.report('karatsuba-workspace', 'Karatsuba_aux size %d: result differs from the schoolbook product' % z, {'tool': 'asan', 'lines': klines})
             if u > 16 * z: ctx.report('karatsuba-workspace', 'model workspace %d exceeds 16*size for size %d' % (u, z), {'size': z})
+    # the convenience pointers and dimension fields inside freshly built objects (an alias that points elsewhere is an out-of-bounds
+    # access waiting for the first client that follows it)
+    alines = ['aliases %d %d %d %d %d' % c for c in ((5, 1, 3, 8, 2), (3, 2, 2, 3, 1), (1, 3, 1, 1, 4), (9, 2, 4, 2, 3))]
+    rc, out, err = run_san(aexe, alines, env, 1800)
+    if judge('ASan, object structure invariants', 'aliases', rc, out, err, {'tool': 'asan', 'lines': alines}):
+        for l, o in zip(alines, out.strip().split('\n')):
+            t = o.split(); ctx.count(l)
+            if len(t) < 4 or t[0] != 'ok' or t[1] != '0':
+                ctx.report('object-structure', '%s: %s of the structure invariants of freshly allocated objects do not hold (first: number %s of %s): an alias pointer or dimension field differs from what the headers document' % (l, t[1] if len(t) > 1 else '?', t[2] if len(t) > 2 else '?', t[3] if len(t) > 3 else '?'), {'tool': 'asan', 'lines': [l]})
     # every FFT back-end under ASan: all transform / Lagrange-domain entry points once (the lifecycles above run on spqlios-fma)
     NN = 1024
     def rv(lo, hi): return ' '.join(str(rng.randrange(lo, hi)) for _ in range(NN))
